@@ -62,6 +62,8 @@ FFUF(r)    == Cmp(r, Fold(r.in.s), "FoldUnfoldFold")         \* observed fold(un
 
 ArithVal(op, x, y) == CASE op = "add" -> RAdd(x, y) [] op = "sub" -> RSub(x, y)
                         [] op = "mul" -> RMul(x, y) [] op = "div" -> RDiv(x, y)
+                        [] op = "pow" -> (IF RIsInt(y) THEN RPow(x, RFloor(y)) ELSE "0")
+                        [] OTHER -> "0"
 \* a op b; b is a spectrum (r.in.b) or a scalar (r.in.c); r.in.refl = TRUE means b op a
 FArith(r) ==
     LET a == r.in.a
@@ -72,11 +74,13 @@ FArith(r) ==
                  m == [k \in 1..Size(a.sh) |-> a.m[k] \/ bm(k)]
                  exp == [sh |-> a.sh,
                          d |-> [k \in 1..Size(a.sh) |-> IF m[k] THEN "0"
+                                  ELSE IF ~r.in.values THEN "0"
                                   ELSE IF r.in.refl THEN ArithVal(r.in.op, bd(k), a.d[k]) ELSE ArithVal(r.in.op, a.d[k], bd(k))],
                          m |-> m, f |-> a.f,
                          ids |-> IF a.ids # <<>> THEN a.ids ELSE IF isS THEN r.in.b.ids ELSE <<>>]
              IN  IF Raised(r) THEN {"ArithRaised"}
-                 ELSE F("ArithData", DataOK(r.out.s, exp)) \cup F("ArithMask", MaskExact(r.out.s, exp))
+                 ELSE (IF r.in.values THEN F("ArithData", DataOK(r.out.s, exp)) ELSE F("ArithShape", r.out.s.sh = exp.sh))
+                      \cup F("ArithMask", MaskExact(r.out.s, exp))
                       \cup F("ArithFolded", r.out.s.f = exp.f) \cup F("ArithLabels", r.out.s.ids = exp.ids)
 \* unary / slicing / likelihood: folding flag, mask and labels survive
 FKeep(r) == F("KeepFolded", r.out.f = (IF r.in.s.f THEN "True" ELSE "False")) \cup
